@@ -17,12 +17,14 @@ import (
 	"github.com/ipfs/go-cid"
 	"github.com/ipfs/go-datastore"
 	dssync "github.com/ipfs/go-datastore/sync"
+	"github.com/libp2p/go-libp2p/p2p/host/eventbus"
 	mocknet "github.com/libp2p/go-libp2p/p2p/net/mock"
 	"go.uber.org/zap"
 
 	ipfslog "berty.tech/go-ipfs-log"
 	orbitdb "berty.tech/go-orbit-db"
 	"berty.tech/go-orbit-db/iface"
+	"berty.tech/go-orbit-db/stores"
 	"berty.tech/weshnet/v2/pkg/ipfsutil"
 	"berty.tech/weshnet/v2/pkg/protocoltypes"
 	"berty.tech/weshnet/v2/pkg/secretstore"
@@ -141,31 +143,42 @@ func vfValueIDs(s iface.Store) []string {
 	return out
 }
 
-// vfSyncTo makes `to` join the causal past of the given heads and waits until the store has
-// them all (polling the log; the replicator works in the background).
+// vfSyncTo makes `to` join the causal past of the given heads and waits for the store's own
+// EventReplicated (emitted after the log was joined AND the index updated) until it has them all.
 func vfSyncTo(ctx context.Context, to iface.Store, heads []ipfslog.Entry, want map[string]bool) {
-	if err := to.Sync(ctx, heads); err != nil {
-		vfInfra("sync: %v", err)
+	sub, err := to.EventBus().Subscribe(new(stores.EventReplicated), eventbus.BufSize(64))
+	if err != nil {
+		vfInfra("subscribe: %v", err)
 	}
-	deadline := time.Now().Add(20 * time.Second)
-	for {
+	defer sub.Close()
+	hasAll := func() bool {
 		have := map[string]bool{}
 		for _, id := range vfEntryIDs(to) {
 			have[id] = true
 		}
-		ok := true
 		for id := range want {
 			if !have[id] {
-				ok = false
+				return false
 			}
 		}
-		if ok {
-			return
+		return true
+	}
+	if hasAll() {
+		return
+	}
+	if err := to.Sync(ctx, heads); err != nil {
+		vfInfra("sync: %v", err)
+	}
+	deadline := time.After(30 * time.Second)
+	for {
+		select {
+		case <-sub.Out():
+			if hasAll() {
+				return
+			}
+		case <-deadline:
+			vfInfra("sync did not complete within 30s")
 		}
-		if time.Now().After(deadline) {
-			vfInfra("sync did not complete: have %d want %d", len(have), len(want))
-		}
-		time.Sleep(2 * time.Millisecond)
 	}
 }
 
